@@ -31,6 +31,12 @@ def main():
             mod.run(chk)
         return chk.finish()
     except vlib.Inconclusive as ex:
+        if chk.violations:
+            # failing real-code cases were already observed: a later part that could not be carried out does not unmake them
+            chk.note("a later part of the check was inconclusive: %s" % ex)
+            print("NOTE property=%s: a later part of the check was inconclusive (%s); the violations below were observed before it" % (prop, ex),
+                  file=sys.stderr)
+            return chk.finish()
         print("INCONCLUSIVE property=%s: %s" % (prop, ex), file=sys.stderr)
         return 2
     except Exception:
